@@ -262,6 +262,20 @@ pub fn hand_written() -> Vec<Seed> {
          fn f(t: Tri, k: u8) -> u8 { match t { B(v) if v > k => v, A => 1, _ if k == 0 => 2, _ => k } }\n",
     );
     s(
+        "never-function",
+        "fn stop(a: i32) -> ! { stop(a) }\n\
+         fn halt(a: i32, c: bool) -> ! { if c { return stop(a); } halt(a, c) }\n\
+         fn f(a: i32) -> i32 { if a < 0 { stop(a) } else { a } }\n\
+         fn g(a: i32) -> String { let x: String = halt(a, true); x }\n",
+    );
+    s(
+        "nested-types",
+        "record Bag { items: List[Option[u8]], tag: Option[String], pair: { l: i16, r: bool } }\n\
+         fn mk(a: u8, s: String) -> Bag { Bag { items: [Option.Some(a)], tag: Option.Some(s), pair: { l: 1, r: true } } }\n\
+         fn first(l: List[Option[u8]]) -> Option[u8] { match l.get(0) { Some(o) => o, None => Option.None } }\n\
+         fn f(a: u8, s: String) -> Result[Option[u8], String] { let b: Bag = mk(a, s); let o: Option[u8] = first(b.items); let r: Result[Option[u8], String] = Result.Ok(o); r }\n",
+    );
+    s(
         "scopes-if-else",
         "fn pick(c: bool, n: i32) -> i32 { if c { let hit: i32 = n + 1; hit } else { let miss: i32 = n - 1; miss } }\n\
          fn chain(a: i32, b: i32) -> i32 { if a < b { let lo: i32 = a; lo } else if a == b { let mid: i32 = a + b; mid } else { let hi: i32 = b; { let deep: i32 = hi * 2; deep + hi } } }\n\
